@@ -964,10 +964,16 @@ def circ_case(g, tier):
     dof0 = li.dof - nz
     lam = 0.3 / max(c, 1.0)
     style = r.choice(["full", "full", "full", "singular", "diag", "zero"])
+    if quat and circI and r.random() < 0.12:
+        style = "just-above-cut-off"
     Ps = []
     for _ in range(k):
         sc = lam * r.uniform(0.2, 1.0)
-        if style == "full":
+        if style == "just-above-cut-off":
+            # rotation-vector perturbations of norm in (1.05e-4, 1.9e-4): just above the cut-off of the exponential
+            # (1e-4 rad); their half-angle sine (5.2e-5 .. 9.5e-5) must clear the cut-off of the logarithm (5e-5)
+            P = [[((r.uniform(1.05e-4, 1.9e-4) ** 2) / c if i == j else 0.0) for j in range(dof0)] for i in range(dof0)]
+        elif style == "full":
             P = g.spd(dof0, cond=10 ** r.uniform(0, 1.5), scale=sc)
         elif style == "singular":
             P = g.spd(dof0, cond=10 ** r.uniform(0, 1.5), scale=sc, rank=r.randint(0, max(0, dof0 - 1)))
@@ -1100,7 +1106,7 @@ def tangent_err(lay, col, mean, E):
         if lay.quat:
             e = E[lay.lin + 3 * q: lay.lin + 3 * q + 3]
             th = math.sqrt(sum(x * x for x in e))
-            out += [8 * EPS / max(th, 1e-4) + 8 * EPS] * 3
+            out += [32 * EPS / max(th, 1e-4) + 8 * EPS] * 3   # acos near 1: d(angle) ~ 4 eps / angle
         else:
             out.append(8 * EPS * math.pi)
     base = lay.lin + lay.circ * lay.cs
